@@ -1183,7 +1183,8 @@ clauses (mutual USE between schemas is legal EXPRESS), `SCOPE_dfs` over the supe
 `TYPE_resolve_` over defined types that name each other, `RENAMEresolve` over item-wise USE/REFERENCE chains (its inner
 search is `C06_rename_search_terminates`), and the two cyclicity checks `ENTITY_check_subsuper_cyclicity_` (subtypes) and
 `TYPE_check_select_cyclicity` (select members), which mark a successor before they descend into it (the root is cut by
-their equality test).  Each returns on every graph, because each marks the node before it recurses
+their equality test), and exp2cxx's `TYPEselect_print` over selects that contain each other through named aggregates (the
+tag stored as client data is the mark).  Each returns on every graph, because each marks the node before it recurses
 and the mark stays: regenerated per function — the guard and the order of mark and recursion; that nothing in the body
 starts another search (the set of functions that increment `__SCOPE_search_id` is regenerated too); for the resolve marks
 that "in progress" is only cleared after "failed" or the result has been set. -/
